@@ -78,6 +78,9 @@ def universe():
     # scalars whose == raises inside numpy (out-of-range dates, ints beyond 64 bits against numpy scalars): eq is still a boolean
     u += [{'$np': ['datetime64[D]', '9999-12-31']}, {'$np': ['datetime64[D]', '1000-01-01']}, 2 ** 70, -2 ** 70, [{'$np': ['datetime64[D]', '9999-12-31']}], {'a': 2 ** 70}, {'$np': ['datetime64[ns]', '2020-01-01T00:00:00']}]
     # a missing timestamp / duration is a NaN of its kind: a value holding one equals its structural copy (fresh NaT objects), at any depth
+    # labels of several levels: a series on a MultiIndex against same-length series on a flat index / on an index with another number of levels
+    u += [{'$srmi': [[['a', 'b'], ['a', 'c']], [1.0, 2.0]]}, {'$srmi': [[['a', 'b'], ['a', 'c']], [1.0, 3.0]]}, {'$srmi': [[['a', 'b', 'x'], ['a', 'c', 'x']], [1.0, 2.0]]}, {'$sr': [['a', 'b'], [1.0, 2.0]]},
+          {'$srmi': [[['a', 'b'], ['a', 'c'], ['b', 'c']], [1.0, 2.0, 3.0]]}, {'$srmi': [[['a', 'b', 'c'], ['a', 'c', 'c'], ['b', 'c', 'c']], [1.0, 2.0, 3.0]]}, [{'$srmi': [[['a', 'b'], ['a', 'c']], [1.0, 2.0]]}]]
     # one decimal fraction at two precisions next to the python float
     u += [{'$np': ['float32', 0.1]}, 0.1, {'$np': ['float64', 0.1]}, [{'$np': ['float32', 0.1]}], [0.1]]
     NAT, NATD, NATT = {'$np': ['datetime64[ns]', 'NaT']}, {'$np': ['datetime64[D]', 'NaT']}, {'$np': ['timedelta64[s]', 'NaT']}
